@@ -1,2 +1,61 @@
-(* C17 — placeholder while the model is validated; theorems follow *)
+(* C17 — the C annealing kernels are memory-safe on every valid call.
+   Statements only; proofs in Proofs/SafetyProofs.v and Proofs/AnnealProofs.v.
+
+   What a proof assistant can carry here is the INDEX ARITHMETIC of the kernels: every array access of the C sources is
+   listed (regenerated from /repo on each run by harness/c_access.py) in coq/c_access_table.json together with the lemma
+   that bounds its index, and each allocation with the block size those lemmas assume.  The lemmas below are about the
+   Gallina transcription of that arithmetic (flat arrays + row starts).  Use of freed or uninitialised memory, signed
+   overflow, and the behaviour of the real machine code are outside any Gallina model: they are observed by running the
+   same call sequences through an ASan+UBSan build of the extension rebuilt from /repo (harness/props/c17.py), in one
+   process, and by comparing results with fresh calls. *)
 From QV.Model Require Import Base Matrix Convert Reduce Anneal.
+From QV.Proofs Require Import BaseProofs AnnealProofs SafetyProofs.
+
+(* arr[index[i] + j], j < num[i]: inside the block of sum(num) elements, and it is entry j of row i *)
+Theorem C17_flat_access : forall (A : Type) (d : A) rows i j, (i < length rows)%nat -> (j < length (nth i rows []))%nat ->
+  (row_start rows i + j < length (flat rows))%nat /\ nth (row_start rows i + j) (flat rows) d = nth j (nth i rows []) d.
+Proof. intros A d. exact (flat_access d). Qed.
+Print Assumptions C17_flat_access.
+(* index[i] = index[i-1] + num[i-1] is that row start *)
+Theorem C17_row_start : forall (A : Type) (rows : list (list A)) i, (i < length rows)%nat ->
+  row_start rows (S i) = (row_start rows i + nth i (counts rows) 0%nat)%nat.
+Proof. intros A. exact row_start_succ. Qed.
+Print Assumptions C17_row_start.
+
+(* quadratic kernel: neighbors[index[i]+j] and J[index[i]+j] are in range, and the neighbour read there indexes state[] and
+   flip_spin_dE[] in range -- for the arrays _anneal.py builds from any valid model (C11_arrays gives args_ok) *)
+Theorem C17_quso_access : forall a N, args_ok a N ->
+  forall i j, (i < N)%nat -> (j < nth i (counts (qnb a)) 0%nat)%nat ->
+    let pos := (row_start (qnb a) i + j)%nat in
+    (pos < length (flat (qnb a)))%nat /\ (fst (nth pos (flat (qnb a)) (0%nat, 0%Q)) < N)%nat.
+Proof. exact quso_access. Qed.
+Print Assumptions C17_quso_access.
+Theorem C17_arrays : forall N t, qvalid N t -> args_ok (quso_flatten N t) N.
+Proof. exact flatten_ok. Qed.
+Print Assumptions C17_arrays.
+
+(* general kernel: terms[index[t]+j] is in range and the label read there indexes state[] in range *)
+Theorem C17_puso_access : forall (keys : list (list nat)) len, (forall k, In k keys -> forall l, In l k -> (l < len)%nat) ->
+  forall t j, (t < length keys)%nat -> (j < nth t (counts keys) 0%nat)%nat ->
+    let pos := (row_start keys t + j)%nat in
+    (pos < length (flat keys))%nat /\ (nth pos (flat keys) 0%nat < len)%nat.
+Proof. exact puso_access. Qed.
+Print Assumptions C17_puso_access.
+
+(* the spin picked by a step (sweep position or pcg32_boundedrand) and the result block states[i*len_state + j] *)
+Theorem C17_picked_index : forall (io : bool) (r : rng) (j N : nat) (r' : rng) (i : nat),
+  (if io then Some (r, j) else rand_int r N) = Some (r', i) -> (j < N)%nat -> (i < N)%nat.
+Proof. exact picked_index_ok. Qed.
+Print Assumptions C17_picked_index.
+Theorem C17_states_block : forall num len i j, (i < num)%nat -> (j < len)%nat -> (i * len + j < num * len)%nat.
+Proof. exact states_access. Qed.
+Print Assumptions C17_states_block.
+
+(* the state array keeps its length and its entries stay +-1 through a whole anneal (no write lands elsewhere in the model) *)
+Theorem C17_state_shape : forall E tab io Ts r s r' s', metro_single E tab io Ts r s = Some (r', s') ->
+  length s' = length s /\ (pm1 s -> pm1 s') /\ (all_zero Ts -> (E s' <= E s)%Q).
+Proof. exact metro_single_spec. Qed.
+Print Assumptions C17_state_shape.
+
+Example C17_example : row_start [[1; 2]; []; [3]]%nat 2 = 2%nat /\ nth (row_start [[1; 2]; []; [3]]%nat 2 + 0) (flat [[1; 2]; []; [3]]%nat) 0%nat = 3%nat.
+Proof. split; reflexivity. Qed.
